@@ -497,6 +497,8 @@ class _Compress(StandardNode):
 
     def infer_output_types(self) -> Dict[str, Type]:
         self.infer_output_types_onnx()
+        if self.inputs.input.type is None or self.inputs.condition.type is None:
+            return {}
         inp, cond = (
             self.inputs.input.unwrap_tensor(),
             self.inputs.condition.unwrap_tensor(),
